@@ -35,6 +35,11 @@ fn preds_one(t: &str, cols: &[&str], rng: &mut Rng) -> String {
 
 /// SQL programs: a curated list of rule-targeting shapes plus seeded random compositions
 pub fn programs(thorough: bool, seed: u64) -> Vec<(String, String)> {
+    programs_n(seed, if thorough { 300 } else { 160 })
+}
+
+/// the curated programs plus `nr` seeded random join programs
+pub fn programs_n(seed: u64, nr: usize) -> Vec<(String, String)> {
     let mut out: Vec<(String, String)> = vec![];
     let mut add = |fam: &str, s: String| out.push((fam.to_string(), s));
     // --- single table
@@ -115,7 +120,6 @@ pub fn programs(thorough: bool, seed: u64) -> Vec<(String, String)> {
     add("empty", "SELECT count(*) FROM t1 INNER JOIN (SELECT a FROM t2 WHERE 1 = 0) x ON t1.a = x.a".into());
     // --- seeded random joins with random predicates
     let mut rng = Rng::new(seed ^ 0xC03);
-    let nr = if thorough { 300 } else { 160 };
     for _ in 0..nr {
         let jt = *rng.pick(&JOINS);
         let on_extra = if rng.chance(1, 3) { format!(" AND {}", if rng.chance(1, 2) { preds_one("t1", &["a", "b"], &mut rng) } else { preds_one("t2", &["a", "c"], &mut rng) }) } else { String::new() };
@@ -248,11 +252,12 @@ fn culprit(analyzed: &LogicalPlan, rules: &[Arc<dyn OptimizerRule + Send + Sync>
 pub fn run(thorough: bool, seed: u64, threads: usize) -> Value {
     let t0 = std::time::Instant::now();
     let timeout_ms = if thorough { 120000 } else { 60000 };
-    let nrows = if thorough { 3 } else { 2 };
+    let nrows = 2;
     let mut duo0 = Duo::new(timeout_ms, false);
     let grid = crate::grid::validate(&mut duo0, false);
     drop(duo0);
-    let progs = programs(thorough, seed);
+    // C03's own thorough tier uses 2 rows per table (3 rows did not finish within 80 minutes) but five times the generated programs
+    let progs = programs_n(seed, if thorough { 800 } else { 160 });
     let chunks: Vec<Vec<(String, String)>> = {
         let mut c: Vec<Vec<(String, String)>> = (0..threads).map(|_| vec![]).collect();
         for (i, p) in progs.into_iter().enumerate() {
@@ -299,7 +304,7 @@ pub fn run(thorough: bool, seed: u64, threads: usize) -> Value {
                                 Err(e) => t.inconclusive.push(format!("optimizer failed on {sql}: {e}")),
                             }
                             // (ii) each rule alone, (iii) the pipeline minus one rule: on a rotating slice of programs
-                            let do_rules = (pi + ci) % 3 == 0;
+                            let do_rules = if thorough { (pi + ci) % 2 == 0 } else { (pi + ci) % 3 == 0 };
                             if do_rules {
                                 for (ri, rule) in all_rules.iter().enumerate() {
                                     let single = Optimizer::with_rules(vec![rule.clone()]);
@@ -307,7 +312,7 @@ pub fn run(thorough: bool, seed: u64, threads: usize) -> Value {
                                         if format!("{}", opt.display_indent()) != format!("{}", analyzed.display_indent())
                                             && seen.insert(format!("{}=>{}", analyzed.display_indent(), opt.display_indent()))
                                         {
-                                            let out = plans_equivalent(&mut duo, &w, nrows, &analyzed, &opt, true);
+                                            let out = plans_equivalent(&mut duo, &w, 2, &analyzed, &opt, true);
                                             t.handle(&format!("rule-alone/{}", rule.name()), sql, &analyzed, &opt, out, format!("rule alone: {}", rule.name()));
                                         }
                                     }
@@ -319,7 +324,7 @@ pub fn run(thorough: bool, seed: u64, threads: usize) -> Value {
                                             if format!("{}", opt.display_indent()) != format!("{}", analyzed.display_indent())
                                                 && seen.insert(format!("{}=>{}", analyzed.display_indent(), opt.display_indent()))
                                             {
-                                                let out = plans_equivalent(&mut duo, &w, nrows, &analyzed, &opt, true);
+                                                let out = plans_equivalent(&mut duo, &w, 2, &analyzed, &opt, true);
                                                 let sig = if matches!(out, Outcome::Violation(_)) { format!("pipeline minus {}: {}", rule.name(), culprit(&analyzed, &rest)) } else { String::new() };
                                                 t.handle(&format!("pipeline-minus/{}", rule.name()), sql, &analyzed, &opt, out, sig);
                                             }
